@@ -1136,7 +1136,33 @@ package process
 //@    (is(f, ShiftForm) ==> newKid(ShiftForm(f).continuation_e, a)) &&
 //@    (is(f, DropForm) ==> newKid(DropForm(f).continuation_e, a)) &&
 //@    (is(f, PrintForm) ==> newKid(PrintForm(f).continuation_e, a))
+// ... and it is a copy: same former, same names (as channels: identifier, channel, flags), same labels and function
+// name, as many branches/arguments, each branch with the label and payload name of the branch it copies
+//@ macro sameNm(a Name, b Name) bool = a.Ident == b.Ident && a.Channel == b.Channel && a.ChannelID == b.ChannelID && a.IsSelf == b.IsSelf && a.ControlChannel == b.ControlChannel
+//@ macro copyOf(r Form, o Form) bool =
+//@    (is(o, SendForm) ==> is(r, SendForm) && sameNm(SendForm(r).to_c, SendForm(o).to_c) && sameNm(SendForm(r).payload_c, SendForm(o).payload_c) && sameNm(SendForm(r).continuation_c, SendForm(o).continuation_c)) &&
+//@    (is(o, ReceiveForm) ==> is(r, ReceiveForm) && sameNm(ReceiveForm(r).from_c, ReceiveForm(o).from_c) && sameNm(ReceiveForm(r).payload_c, ReceiveForm(o).payload_c) && sameNm(ReceiveForm(r).continuation_c, ReceiveForm(o).continuation_c)) &&
+//@    (is(o, SelectForm) ==> is(r, SelectForm) && sameNm(SelectForm(r).to_c, SelectForm(o).to_c) && SelectForm(r).label == SelectForm(o).label && sameNm(SelectForm(r).continuation_c, SelectForm(o).continuation_c)) &&
+//@    (is(o, BranchForm) ==> is(r, BranchForm) && BranchForm(r).label == BranchForm(o).label && sameNm(BranchForm(r).payload_c, BranchForm(o).payload_c)) &&
+//@    (is(o, CaseForm) ==> is(r, CaseForm) && sameNm(CaseForm(r).from_c, CaseForm(o).from_c) && len(CaseForm(r).branches) == len(CaseForm(o).branches) &&
+//@        (forall i int :: 0 <= i && i < len(CaseForm(o).branches) && CaseForm(o).branches[i] != nil ==> CaseForm(r).branches[i].label == CaseForm(o).branches[i].label && sameNm(CaseForm(r).branches[i].payload_c, CaseForm(o).branches[i].payload_c))) &&
+//@    (is(o, CloseForm) ==> is(r, CloseForm) && sameNm(CloseForm(r).from_c, CloseForm(o).from_c)) &&
+//@    (is(o, NewForm) ==> is(r, NewForm) && sameNm(NewForm(r).new_name_c, NewForm(o).new_name_c)) &&
+//@    (is(o, ForwardForm) ==> is(r, ForwardForm) && sameNm(ForwardForm(r).to_c, ForwardForm(o).to_c) && sameNm(ForwardForm(r).from_c, ForwardForm(o).from_c)) &&
+//@    (is(o, SplitForm) ==> is(r, SplitForm) && sameNm(SplitForm(r).channel_one, SplitForm(o).channel_one) && sameNm(SplitForm(r).channel_two, SplitForm(o).channel_two) && sameNm(SplitForm(r).from_c, SplitForm(o).from_c)) &&
+//@    (is(o, CallForm) ==> is(r, CallForm) && CallForm(r).functionName == CallForm(o).functionName && len(CallForm(r).parameters) == len(CallForm(o).parameters) &&
+//@        (forall i int :: 0 <= i && i < len(CallForm(o).parameters) ==> sameNm(CallForm(r).parameters[i], CallForm(o).parameters[i]))) &&
+//@    (is(o, WaitForm) ==> is(r, WaitForm) && sameNm(WaitForm(r).to_c, WaitForm(o).to_c)) &&
+//@    (is(o, CastForm) ==> is(r, CastForm) && sameNm(CastForm(r).to_c, CastForm(o).to_c) && sameNm(CastForm(r).continuation_c, CastForm(o).continuation_c)) &&
+//@    (is(o, ShiftForm) ==> is(r, ShiftForm) && sameNm(ShiftForm(r).from_c, ShiftForm(o).from_c) && sameNm(ShiftForm(r).continuation_c, ShiftForm(o).continuation_c)) &&
+//@    (is(o, DropForm) ==> is(r, DropForm) && sameNm(DropForm(r).client_c, DropForm(o).client_c)) &&
+//@    (is(o, PrintForm) ==> is(r, PrintForm) && PrintForm(r).label == PrintForm(o).label)
+//@ contract (*Name).Copy
+//@   ensures[C04] C04.nameCopy: result != nil && born(result) >= old(allocCounter()) && sameNm(deref(result), old(deref(n)))
 //@ contract CopyForm
+//@   ensures[C04] C04.copyIsCopy: copyOf(result, orig)
+//@   loop[C04] 1 invariant (len(p.branches) == 0 || backing(branches) != backing(p.branches)) && forall j int :: 0 <= j && j < i && p.branches[j] != nil ==> branches[j].label == p.branches[j].label && sameNm(branches[j].payload_c, p.branches[j].payload_c)
+//@   loop[C04] 2 invariant 0 <= i && i <= len(p.parameters) && len(copiedParameters) == len(p.parameters) && (forall j int :: 0 <= j && j < i ==> sameNm(copiedParameters[j], p.parameters[j]))
 //@   ensures[C04] C04.copyFresh: result != nil && copiedHere(result, old(allocCounter()))
 //@   ensures[C04] C04.copySameKind: (is(orig, CaseForm) ==> is(result, CaseForm) && len(CaseForm(result).branches) == len(CaseForm(orig).branches)) && (is(orig, BranchForm) ==> is(result, BranchForm))
 //@   loop[C04] 1 invariant 0 <= i && i <= len(p.branches) && len(branches) == len(p.branches) && born(backing(branches)) >= old(allocCounter()) && (forall j int :: 0 <= j && j < i ==> branches[j] != nil && born(branches[j]) >= old(allocCounter()))
@@ -1163,7 +1189,7 @@ package process
 //@   callsite[C04] C04.dupCopies process.CopyForm#1: arg0 == process.Body
 //@   callsite[C04] C04.dupRenames process.Form.Substitute#1: arg0 == newDuplicatedProcessBody && arg1 == processFreeNames[k] && arg2 == freshChannels[k][i]
 //@   callsite[C04] C04.dupChild process.NewProcess#1: arg0 == newDuplicatedProcessBody && len(arg1) == 1 && arg1[0] == newProcessNames[i] && newProcessNames == old(process.Providers)
-//@   callsite[C04] C04.dupFresh process.NewProcess#1: arg0 == nil || born(arg0) >= old(allocCounter())
+//@   callsite[C04] C04.dupFresh process.NewProcess#1: copiedHere(arg0, old(allocCounter()))
 //@   callsite[C04] C04.dupFwd process.NewForward#1: arg0.IsSelf && arg1 == processFreeNames[i]
 //@   callsite[C04] C04.dupFwdChild process.NewProcess#2: arg0 == newProcessBody && arg1 == freshChannels[i]
 //@   callsite[C04] C04.dupEnds (*process.Process).terminate#1: arg0 == process
@@ -1307,7 +1333,7 @@ package process
 //@   callsite[C04] C04.npdupCopies process.CopyForm#1: arg0 == process.Body
 //@   callsite[C04] C04.npdupRenames process.Form.Substitute#1: arg0 == newDuplicatedProcessBody && arg1 == processFreeNames[k] && arg2 == freshChannels[k][i]
 //@   callsite[C04] C04.npdupChild process.NewProcess#1: arg0 == newDuplicatedProcessBody && len(arg1) == 1 && arg1[0] == newProcessNames[i] && newProcessNames == old(process.Providers)
-//@   callsite[C04] C04.npdupFresh process.NewProcess#1: arg0 == nil || born(arg0) >= old(allocCounter())
+//@   callsite[C04] C04.npdupFresh process.NewProcess#1: copiedHere(arg0, old(allocCounter()))
 //@   callsite[C04] C04.npdupFwd process.NewForward#1: arg0.IsSelf && arg1 == processFreeNames[i]
 //@   callsite[C04] C04.npdupFwdChild process.NewProcess#2: arg0 == newProcessBody && arg1 == freshChannels[i]
 //@   callsite[C04] C04.npdupEnds (*process.Process).terminate#1: arg0 == process
